@@ -38,6 +38,76 @@ def cases(tier, rng):
         ops = [['pop', rng.randint(1, 30)] for _ in range(rng.randint(0, 5))] + [['pop', total], ['pop', 11]]
         yield {'pol': pol, 'gs': rng.randint(1, n + 1), 'stims': stims, 'fs': rng.choice(FS), 't0': rng.choice([0, 9]),
                'seed': rng.randint(0, 99), 'ops': ops, 'fill': rng.choice(['append', 'extend', 'mixed'])}
+    yield from _audit_cases(quick, rng)
+
+
+def _audit_cases(quick, rng):
+    """Options, argument kinds and twins the generators above never reached (coverage audit).  Domain as before:
+    automatic decrement, trial counts >= 1, no pause."""
+    def stims(n, tmax=3, kinds=('array', 'gen'), delays=(0, 1), lens=(0, 1, 2, 3)):
+        return [{'len': rng.choice(lens), 'trials': rng.randint(1, tmax), 'kind': rng.choice(kinds),
+                 'delays': rng.choice(delays)} for _ in range(n)]
+
+    def finish(st):
+        n = len(st)
+        return sum(s['trials'] for s in st) * 8 * max(n, 2) + 30
+
+    def base(pol, st, **kw):
+        c = {'pol': pol, 'gs': rng.randint(1, len(st) + 1), 'stims': st, 'fs': rng.choice(FS), 't0': rng.choice([0, 9, -4, 2.5]),
+             'seed': rng.randint(0, 30), 'fill': rng.choice(['append', 'extend', 'mixed', 'extend_np'])}
+        c.update(kw)
+        return c
+    rep = 2 if quick else 12
+    # options: explicit / default / positional / truthy non-bool / NumPy integer; `queues` dict; set_fs(); int fs
+    for pol in qc.POLICIES:
+        for mk in ({'opt': 'default', 'via': 'dict'}, {'opt': 'pos', 'fs': 'set_fs'}, {'opt': 'truthy', 'fs_kind': 'int'},
+                   {'opt': 'np', 'fs_kind': 'np64', 't0': 'skip'}, {'fs': 'pos', 'via': 'dict'}):
+            for _ in range(rep):
+                st = stims(rng.randint(1, 5))
+                c = base(pol, st, mk=mk)
+                if mk.get('opt') == 'default':
+                    c['seed'] = 0
+                if mk.get('fs_kind') == 'int':
+                    c['fs'] = 1000.0
+                if mk.get('t0') == 'skip':
+                    c['t0'] = 0
+                yield dict(c, ops=[['pop', rng.randint(1, 9)], ['pop', finish(st)], ['pop', 4]])
+    # trial counts as NumPy integers / floats; larger counts; sources of every container kind; every kind of delay
+    for pol in qc.POLICIES:
+        for _ in range(rep):
+            tk = rng.choice(['np', 'float', 'npf'])
+            st = [dict(x, tkind=tk) for x in stims(rng.randint(2, 4), tmax=rng.choice([3, 12]))]
+            yield dict(base(pol, st), ops=[['pop', rng.randint(1, 9), 'np'], ['pop', finish(st)], ['pop', 4]])
+            st = stims(rng.randint(2, 4), kinds=('i64', 'f32', 'ro', 'view', 'list', 'cos2', 'i16'))
+            yield dict(base(pol, st), ops=[['pop', rng.randint(1, 9)], ['pop', finish(st), 'kw'], ['pop', 4]])
+            st = stims(rng.randint(2, 4), delays=(None, 0.0, 0.4, 1.5, 2.5))
+            for x in st:
+                x['dkind'] = rng.choice(['auto', 'np', 'int0'])
+                if rng.random() < 0.4:
+                    x['delays'] = [rng.choice([0, 1, 0.6]) for _ in range(rng.randint(1, 3))]
+                    x['dkind'] = 'cycle'
+            yield dict(base(pol, st), ops=[['pop', rng.randint(1, 9)], ['pop', finish(st) * 2], ['pop', 4]])
+    # extend() with one scalar trial count / delay for all sources
+    for pol in qc.POLICIES:
+        for _ in range(rep):
+            t, d = rng.randint(1, 3), rng.choice([None, 0, 1])
+            st = [dict(x, trials=t, delays=d) for x in stims(rng.randint(1, 5))]
+            yield dict(base(pol, st, fill='extend_scalar'), ops=[['pop', rng.randint(1, 9)], ['pop', finish(st)], ['pop', 4]])
+    # chunkings: true unit steps, zero-size requests anywhere, many requests after the queue ran out
+    for pol in qc.POLICIES:
+        for _ in range(rep):
+            st = stims(rng.randint(2, 3), tmax=2, lens=(1, 2), delays=(0, 1))
+            yield dict(base(pol, st), ops=[['pop', 1]] * (finish(st) // 3) + [['pop', 0], ['pop', 1], ['pop', 2, 'np'], ['pop', 0], ['pop', 5]])
+            st = stims(rng.randint(2, 5))
+            ops = [['pop', rng.choice([0, 1, 2, 7])] for _ in range(5)] + [['pop', finish(st)]] + \
+                  [['pop', rng.choice([0, 1, 3, 10]), rng.choice(['', 'np', 'kw'])] for _ in range(4)] + [['pop', 2]]
+            yield dict(base(pol, st), ops=ops)
+    # a clone taken at any moment completes the same presentation (its original running on next to it)
+    for pol in qc.POLICIES:
+        for _ in range(rep):
+            st = stims(rng.randint(2, 4))
+            pre = [['pop', rng.randint(1, 12)] for _ in range(rng.randint(0, 2))]
+            yield dict(base(pol, st), ops=pre + [['clone'], ['pop', rng.randint(1, 5)], ['pop', finish(st)], ['pop', 3]])
 
 
 def impl(case):
@@ -47,6 +117,8 @@ def impl(case):
 def _tests(args, case):
     from vlib import zlist
     ns = [o[1] for o in case['ops']]
+    if ns[-1] < 1:
+        return [f"order_test {args} {zlist(ns)}", f"timeline_test {args} {zlist(ns)}"]
     return [f"order_test {args} {zlist(ns)}", f"timeline_test {args} {zlist(ns)}",
             f"after_empty_test {args} {zlist(ns[:-1])} {ns[-1]}"]
 
@@ -74,8 +146,10 @@ def oracle(case, res):
         if 'raised' in r:
             return f'pop_buffer raised {r["raised"]}'
     keys = [e[1] for r in res for e in r['events'] if e[0] == 'added']
+    if any(not e[6] for r in res for e in r['events'] if e[0] == 'added'):
+        return 'a trial was set up without automatic decrement'
     counts = [keys.count(k) for k in range(n)]
-    last = res[-1]['status']
+    last = [r for r in res if 'status' in r][-1]['status']
     if not last['empty']:
         return None if pol == 'random' and False else 'queue did not report empty after more than enough samples'
     # counts
@@ -114,11 +188,20 @@ def oracle(case, res):
         return f'trials remain after empty: {last}'
     if last['requested'] != sum(req):
         return f'requested total changed: {last["requested"]} != {sum(req)}'
-    tail = res[-1]
-    if any(v != 0 for v in tail['wave']) or [e for e in tail['events'] if e[0] != 'empty']:
-        return 'output after the queue reported empty is not pure silence'
-    if not [e for e in tail['events'] if e[0] == 'empty']:
-        return 'no empty notification for a request made after the queue ran out'
+    first = next(i for i, r in enumerate(res) if 'status' in r and r['status']['empty'])
+    if not [e for e in res[first]['events'] if e[0] == 'empty']:
+        return 'the queue reports empty without an empty notification'
+    for i in range(first + 1, len(res)):
+        r, o = res[i], case['ops'][i]
+        if o[0] != 'pop':
+            continue
+        st = r['status']
+        if not st['empty'] or st['count'] != 0 or any(x > 0 for x in st['remaining']) or st['requested'] != sum(req):
+            return f'after the queue reported empty, request {i}: {st}'
+        if any(v != 0 for v in r['wave']) or [e for e in r['events'] if e[0] != 'empty'] or len(r['wave']) != o[1]:
+            return 'output after the queue reported empty is not pure silence'
+        if o[1] > 0 and not [e for e in r['events'] if e[0] == 'empty']:
+            return 'no empty notification for a request made after the queue ran out'
     return None
 
 
